@@ -175,6 +175,68 @@ print("LOADED " + json.dumps(out))
 """
 
 
+BIG_LOADER_SCRIPT = """
+import sys, json, io, contextlib, hashlib
+import numpy as np
+from phyclone.data.pyclone import load_data
+out = []
+for data_file, cluster_file in json.loads(sys.argv[1]):
+    with contextlib.redirect_stdout(io.StringIO()):
+        data, samples = load_data(data_file, np.random.default_rng(11), 0.0001, 0.4, False, cluster_file=cluster_file, density="binomial", grid_size=21, outlier_prob=0.001, precision=400)
+    out.append([[dp.idx, dp.name, hashlib.sha1(np.ascontiguousarray(dp.value).tobytes()).hexdigest()] for dp in data])
+print("LOADED " + json.dumps(out))
+"""
+
+
+def loader_large_inputs(ck, workdir, thorough):
+    """An input of 1200 mutations x 2 samples (with and without a cluster file of 40 clusters) loaded in several fresh
+    processes: the data points - their order, names and likelihood grids bit for bit - are the start of every trace and
+    must be the same in every process, whatever the scheduling of any helper threads."""
+    import random as _r
+    d = os.path.join(workdir, "loader_big")
+    os.makedirs(d, exist_ok=True)
+    rnd = _r.Random(5)
+    p = os.path.join(d, "big.tsv")
+    with open(p, "w") as fh:
+        fh.write("mutation_id\tsample_id\tref_counts\talt_counts\tmajor_cn\tminor_cn\tnormal_cn\n")
+        for m in range(1200):
+            for s_ in ("S1", "S2"):
+                dep = rnd.randint(40, 400)
+                alt = rnd.randint(1, dep // 2)
+                fh.write("mut%04d\t%s\t%d\t%d\t%d\t%d\t2\n" % (m, s_, dep - alt, alt, rnd.choice((1, 2, 3)), rnd.choice((0, 1))))
+    cp = os.path.join(d, "big.clusters.tsv")
+    with open(cp, "w") as fh:
+        fh.write("mutation_id\tcluster_id\n")
+        for m in range(1200):
+            fh.write("mut%04d\t%d\n" % (m, m % 40))
+    files = [[p, None], [p, cp]]
+    nproc = 6 if thorough else 4
+    procs = []
+    for k in range(nproc):
+        e = dict(os.environ, PYTHONHASHSEED=str(k % 2), PYTHONPATH=env.REPO, NUMBA_CACHE_DIR=os.path.join(env.BUILD_DIR, "numba_cache"))
+        cmd = [sys.executable, "-c", BIG_LOADER_SCRIPT, json.dumps(files)]
+        if k == 1 and shutil.which("taskset"):
+            cmd = ["taskset", "-c", "0"] + cmd        # one process confined to a single core
+        procs.append(subprocess.Popen(cmd, cwd=d, env=e, stdout=subprocess.PIPE, stderr=subprocess.STDOUT))
+    outs = []
+    for pr in procs:
+        txt = pr.communicate(timeout=1800)[0].decode("utf-8", "replace")
+        line = [l for l in txt.splitlines() if l.startswith("LOADED ")]
+        if pr.returncode != 0 or not line:
+            raise RuntimeError("large-input loader subprocess failed: %s" % txt[-800:])
+        outs.append(json.loads(line[0][7:]))
+    for k in range(1, nproc):
+        for fi, what in enumerate(("without a cluster file", "with a cluster file")):
+            ck.evaluations += 1
+            a, b = outs[0][fi], outs[k][fi]
+            if a != b:
+                j = next((i for i, (x, y) in enumerate(zip(a, b)) if x != y), min(len(a), len(b)))
+                ck.violation("C18|loaded_data_differs|large_input", "the same input of 1200 mutations (%s) loads differently in two processes: data point %d is %s in one and %s in the other" % (
+                    what, j, a[j][:2] if j < len(a) else None, b[j][:2] if j < len(b) else None), {"process": k, "clustered": bool(fi)})
+        ck.nontrivial("loader_big|process %d" % k)
+    ck.traces_validated += nproc
+
+
 def loader_hashseeds(ck, workdir, thorough):
     """--assign-loss-prob on clustered inputs whose permutation test is borderline (exact p-value 1/99 against the 0.01
     threshold; string cluster ids and chromosome names): the loaded data must not depend on PYTHONHASHSEED."""
@@ -309,6 +371,7 @@ def run(corrupt=None):
     iters = 150
     grp_sh = [launch_shared("own_process_each", workdir, in_branch, 3, 0, iters), launch_shared("one_worker_runs_all", workdir, in_branch, 3, 80, iters)]
     loader_hashseeds(ck, workdir, thorough)
+    loader_large_inputs(ck, workdir, thorough)
     grp_t = [launch_timing("timing_direct_slow", workdir, in_file, seed + 3, "phyclone.tree.utils:_np_conv_dims:0.004:12"),
              launch_timing("timing_fft_slow", workdir, in_file, seed + 3, "phyclone.tree.utils:fft_convolve_two_children:0.004:12")]
     in_six = os.path.join(workdir, "in_six.tsv")
